@@ -13,13 +13,16 @@ ALL = [f"C{i:02d}" for i in range(1, 21)]
 out = {"instances": {}}
 for p in ALL:
     res = run_property(p, Index(os.environ.get("CXA_REPO", "/repo")))
-    out[p] = sorted(k for k, v in res.rules.items() if v["instances"] > 0)
+    # rules decided for one formulation of the code only (DESIGN 11.9): another formulation gives no verdict (listed in the
+    # evidence under not_in_fragment), it is not an analysis error - these rules are not part of the anti-vacuity table
+    FORMULATION_BOUND = {("C07", "MRG-2"), ("C14", "BIN-1")}
+    out[p] = sorted(k for k, v in res.rules.items() if v["instances"] > 0 and (p, k) not in FORMULATION_BOUND)
     # instance-level confirmation only for rules whose instance keys are semantic; C09 SC-1 keys carry the source text of the
     # comparison (diagnostic), which every refactoring changes - that rule is confirmed by count only
     # (SC-3 / EX-2 instance keys name the form, degree and constant of a decision site: a refactoring that rewrites the test
     # changes them without changing what is decided - confirmed by count as well)
     TEXT_KEYED = {("C09", "SC-1"), ("C09", "SC-3"), ("C13", "EX-2")}
-    out["instances"][p] = {r: sorted(keys) for r, keys in res.decided.items() if 0 < len(keys) <= 40 and (p, r) not in TEXT_KEYED}
+    out["instances"][p] = {r: sorted(keys) for r, keys in res.decided.items() if 0 < len(keys) <= 40 and (p, r) not in TEXT_KEYED and (p, r) not in FORMULATION_BOUND}
 json.dump(out, open(os.path.join(HERE, "cxa", "confirmed_rules.json"), "w"), indent=1, sort_keys=True)
 print({p: (len(out[p]), sum(len(v) for v in out["instances"][p].values())) for p in ALL})
 # reference of the private helpers (rename detection, cxa/canon.py)
